@@ -334,7 +334,9 @@ def execute(run):
                                            ('GROUPING_PRMS', 'dt_scale'),
                                            ('SLICING_PRMS', 'dt_scale'),
                                            ('SLICING_PRMS', 'height_scale_kwargs', 'min_range'),
-                                           ('MAX_HOLES_OKTA8',), ('MAX_HITS_OKTA0',)], 3))
+                                           ('MAX_HOLES_OKTA8',), ('MAX_HITS_OKTA0',),
+                                           ('EXCLUDE_FOR_BASE_HEIGHT_CALC',),
+                                           ('EXCLUDE_FOR_BASE_HEIGHT_CALC',)], 3))
                 for q, v in extra.items():
                     leaves.setdefault(q, v)
                 sc['prms'] = prmspace.assign_from_leaves(leaves)
